@@ -1,6 +1,8 @@
 package main
 
 import (
+	"net"
+	"strconv"
 	"fmt"
 	"os"
 	"runtime/debug"
@@ -56,6 +58,12 @@ type Path struct {
 	hashTerms []*Term
 	used     varBits // variables occurring in the path condition
 	less     []lessFact
+	observes []observed
+}
+
+type observed struct {
+	label string
+	v     Value
 }
 
 // Case is one harness invocation: function + concrete arguments.
@@ -90,6 +98,7 @@ type Sample struct {
 	Inputs   []NondetVal       `json:"inputs"`
 	Outcome  string            `json:"outcome"`
 	Reach    []string          `json:"reach,omitempty"`
+	Observe  map[string]string `json:"observe,omitempty"`
 }
 
 type NondetVal struct {
@@ -400,7 +409,7 @@ func (w *Worker) runItem(it *WorkItem) {
 			rl = append(rl, l)
 		}
 		sort.Strings(rl)
-		c.Samples = append(c.Samples, Sample{Case: c.String(), Decisions: len(p.decs), Inputs: in.inputs(), Outcome: outcome, Reach: rl})
+		c.Samples = append(c.Samples, Sample{Case: c.String(), Decisions: len(p.decs), Inputs: in.inputs(), Outcome: outcome, Reach: rl, Observe: in.observations()})
 	}
 }
 
@@ -982,4 +991,77 @@ func (in *Interp) assert(c *Term, msg string) {
 func (in *Interp) violation(msg string) {
 	in.recordViolation(msg)
 	panic(violationPath{})
+}
+
+// observations evaluates the texts handed to verifrt.Observe under the path's model; the native
+// replay of the sample recomputes them with the real code and compares.
+func (in *Interp) observations() map[string]string {
+	p := in.path
+	if len(p.observes) == 0 {
+		return nil
+	}
+	// Paths that compared symbolic strings through the abstract order (slt) or sorted by abstract
+	// digests may realise an order the concrete values do not have; their texts are not comparable.
+	if len(p.ordTerms) > 0 || len(p.hashTerms) > 0 {
+		return nil
+	}
+	out := map[string]string{}
+	for _, o := range p.observes {
+		if s, ok := in.concreteText(o.v); ok {
+			out[o.label] = s
+		}
+	}
+	return out
+}
+
+func (in *Interp) concreteText(v Value) (string, bool) {
+	switch s := v.(type) {
+	case string:
+		return s, true
+	case *SymStr:
+		if s.opaque || s.t == nil {
+			return "", false
+		}
+		return in.concreteTerm(s.t)
+	}
+	return "", false
+}
+
+func (in *Interp) concreteTerm(t *Term) (string, bool) {
+	m := in.path.model
+	if l, ok := litOf(t); ok {
+		return l, true
+	}
+	switch {
+	case t.op == OIte:
+		c, ok := m.Eval(t.args[0])
+		if !ok {
+			return "", false
+		}
+		if c == 1 {
+			return in.concreteTerm(t.args[1])
+		}
+		return in.concreteTerm(t.args[2])
+	case t.op == OApp && t.name == "cat":
+		a, ok1 := in.concreteTerm(t.args[0])
+		b, ok2 := in.concreteTerm(t.args[1])
+		return a + b, ok1 && ok2
+	case t.op == OApp && t.name == "IPStr":
+		ip := make(net.IP, 16)
+		for i := 0; i < 16; i++ {
+			b, ok := m.Eval(t.args[i])
+			if !ok {
+				return "", false
+			}
+			ip[i] = byte(b)
+		}
+		return ip.String(), true
+	case t.op == OApp && t.name == "Dec":
+		x, ok := m.Eval(t.args[0])
+		if !ok {
+			return "", false
+		}
+		return strconv.FormatInt(int64(x), 10), true
+	}
+	return "", false
 }
